@@ -281,7 +281,7 @@ theorem setByIndex_vals {o o' : Obj} {n : String} {v : AVal} {i : Nat} (ho : Obj
   unfold setByIndex at h
   split_all h
   all_goals first
-    | (simp [kerr, ierr] at h; done)
+    | (simp [ierr] at h; done)
     | (simp only [pure, Except.pure, Except.ok.injEq] at h; subst h; exact ho.congr rfl rfl rfl rfl rfl rfl rfl rfl)
 
 theorem delAttr_vals {c : Ctx} {o o' : Obj} {n : String} {i : Option Int} {v : Option AVal} (ho : ObjVals o)
